@@ -217,6 +217,62 @@ def byte_edit(v, tier, b, d):
             "sample": [{"case": rows[i]["ec"], "observed": rows[i]["obs"], "spec_expects": expect.get(case_key(rows[i]["ec"]))} for i in (7, len(rows) // 2)]}
 
 
+def line_edit(v, tier, b, d):
+    """Line-edit module (spec/LineEdit.tla): one edit operator on the LINES of a valid file, the expectation computed by
+    the module's abstract reader; quick = 2-entry files, thorough = 4-entry files; exhaustive in both."""
+    cfg = "LineEdit_exh.cfg" if tier == "thorough" else "LineEdit_q.cfg"
+    r = vlib.tlc("LineEditMC", cfg, deadlock=False, timeout=900, workers=4, heap="2g")
+    vlib.tlc_must_pass(r, cfg)
+    for neg in ("LineEdit_neg_stickydup.cfg", "LineEdit_neg_nulok.cfg"):
+        vlib.tlc_must_fail(vlib.tlc("LineEditMC", neg, deadlock=False, timeout=600, workers=2, heap="2g"), neg)
+    cases, expect = {}, {}
+    for pr in parse_prints(r):
+        cases[case_key(pr["c"])] = pr["c"]
+        expect[case_key(pr["c"])] = pr["exp"]
+    jobs = [cases[k] for k in sorted(cases)]
+    if len(jobs) < 100:
+        raise vlib.MachineryError("only %d line-edit cases exported by TLC" % len(jobs))
+    lpath, ltrace = os.path.join(d, "ledits.ndjson"), os.path.join(d, "ledit_trace.ndjson")
+    vlib.write_ndjson(lpath, jobs)
+    vlib.run_driver(b, ["malformed", "-ledits", lpath, "-out", ltrace, "-repo", vlib.REPO], timeout=1800)
+    rows = vlib.read_ndjson(ltrace)
+    if len(rows) != len(jobs):
+        raise vlib.MachineryError("driver returned %d line-edit lines for %d cases" % (len(rows), len(jobs)))
+    tr = vlib.tlc("TraceLineEdit", "TraceLineEdit.cfg", env={"VERIF_TRACE": ltrace}, cont=True, timeout=1800, workers=8, heap="4g")
+    vlib.log("TraceLineEdit: %d lines, %.1fs" % (len(rows), tr.wall))
+    if tr.error:
+        raise vlib.MachineryError("TraceLineEdit failed: %s\n%s" % (tr.kind, tr.out[-3000:]))
+    if tr.distinct != len(rows) + 1:
+        raise vlib.MachineryError("TraceLineEdit visited %d states for %d lines" % (tr.distinct, len(rows)))
+    seen = set()
+    for inv, st in tr.all_violations:
+        ln = int(st.get("l", "0"))
+        if ln < 1 or ln > len(rows) or (inv, ln) in seen:
+            continue
+        seen.add((inv, ln))
+        row = rows[ln - 1]
+        lc, obs = row["lc"], row["obs"]
+        if inv == "KnownLineEdit":
+            raise vlib.MachineryError("driver echoed a line-edit case the specification does not know: %r" % (lc,))
+        e = lc["e"]
+        v.violation("ledit format=%s mode=%s op=%s w=%s obs=%s inv=%s" % (lc["format"], lc["mode"], e["op"], e["w"], obs["res"], inv),
+                    "line edit %s(line %d, %s) of a valid %d-entry %s file (%s): result %s, %d delivered, %d leading deliveries unchanged, "
+                    "invalid at %s; LineEdit.tla expects %s (%s); %s" % (e["op"], e["i"], e["w"], lc["n"], lc["format"], lc["mode"], obs["res"],
+                                                                      obs["delivered"], obs["same"], obs["invalid_at"],
+                                                                      expect.get(case_key(lc)), inv,
+                                                                      {k: x for k, x in (row.get("info") or {}).items() if k != "file" and x}),
+                    replay_obj={"invariant": inv, "row": row},
+                    replay_name="ledit_%s_%s_%s-%d-%s.json" % (lc["format"], lc["mode"], e["op"], e["i"], e["w"]))
+    if tr.violation and not seen:
+        raise vlib.MachineryError("TraceLineEdit reports a violation that could not be located\n%s" % tr.out[-3000:])
+    kinds = {}
+    for k in cases:
+        kinds[expect[k]["res"]] = kinds.get(expect[k]["res"], 0) + 1
+    return {"states": r.distinct, "transitions": r.generated, "cases": len(jobs), "expectation_classes": kinds, "lines_rejected": len(seen),
+            "design_config": cfg, "negative_controls": ["stickydup", "nulok"],
+            "sample": [{"case": rows[i]["lc"], "observed": rows[i]["obs"], "spec_expects": expect.get(case_key(rows[i]["lc"]))} for i in (3, len(rows) // 2)]}
+
+
 def run(tier, v):
     thorough = tier == "thorough"
     # 1. design level: exhaustive over the case space; terminal states print the case list
@@ -252,6 +308,7 @@ def run(tier, v):
     spread_heavy_lines(trace)
     rows, tr, bad = validate(v, trace, timeout=3000 if thorough else 900)
     be = byte_edit(v, tier, b, d)
+    le = line_edit(v, tier, b, d)
     for neg, job in neg_jobs:
         vlib.tlc_must_fail(job.result(), neg)
     pool.shutdown()
@@ -278,12 +335,13 @@ def run(tier, v):
         samples.append({"fuzz": {k: r_.get(k) for k in ("format", "mode", "seed", "intact", "same", "res")},
                         "op": (r_.get("info") or {}).get("op")})
     cov = {
-        "states": states + be["states"], "transitions": trans + be["transitions"],
-        "traces_validated_against_impl": len(rows) + be["cases"],
+        "states": states + be["states"] + le["states"], "transitions": trans + be["transitions"] + le["transitions"],
+        "traces_validated_against_impl": len(rows) + be["cases"] + le["cases"],
         "byte_edit": be,
+        "line_edit": le,
         "samples": samples,
         "exhaustive": True,
-        "evaluations": len(rows) + be["cases"],
+        "evaluations": len(rows) + be["cases"] + le["cases"],
         "distinct_nontrivial": nontrivial,
         "rule": "M2: every case of Malformed!Cases (TLC-enumerated; one per format x mode x prefix length x class x trailing, and "
                 "per description defect x target) rendered and run through the real code; non-trivial = the case carries a "
@@ -314,6 +372,20 @@ def replay(path, v):
     b = vlib.harness_build()
     d = vlib.scratch()
     trace = os.path.join(d, "trace.ndjson")
+    if row["k"] == "edit":
+        epath = os.path.join(d, "edits.ndjson")
+        vlib.write_ndjson(epath, [row["ec"]])
+        vlib.run_driver(b, ["malformed", "-edits", epath, "-out", trace, "-repo", vlib.REPO])
+        for r_ in vlib.read_ndjson(trace):
+            print("replayed: %s -> %s" % (r_["ec"], r_["obs"]))
+        return None
+    if row["k"] == "ledit":
+        lpath = os.path.join(d, "ledits.ndjson")
+        vlib.write_ndjson(lpath, [row["lc"]])
+        vlib.run_driver(b, ["malformed", "-ledits", lpath, "-out", trace, "-repo", vlib.REPO])
+        for r_ in vlib.read_ndjson(trace):
+            print("replayed: %s -> %s" % (r_["lc"], r_["obs"]))
+        return None
     if row["k"] == "case":
         cpath = os.path.join(d, "cases.ndjson")
         vlib.write_ndjson(cpath, [row["c"]])
